@@ -221,6 +221,22 @@ def instances(sk, pk, widths, tier):
                         min_t=0.25 if route == 'api-min-time' else 0.0,
                     )
                     yield deco, route, p, timetxt, meta
+                    if route == 'parser' and not meta:
+                        # the same property with topic names whose alphabetical order is not the source order
+                        yield deco, 'parser', rename_topics(p), timetxt, meta
+
+
+UNSORTED = {'1': 'zulu', '2': 'mike', '3': 'alfa', '4': 'kilo'}
+
+
+def rename_topics(t):
+    """Topics a1 a2 a3 ... -> a_zulu a_mike a_alfa ...: source order differs from every sorted order."""
+    if not isinstance(t, tuple):
+        return t
+    if t and t[0] == 'event':
+        name = t[1]
+        return ('event', name[:-1] + '_' + UNSORTED.get(name[-1], name[-1])) + tuple(t[2:])
+    return tuple(rename_topics(x) for x in t)
 
 
 def derive_from_canonicalised(base):
@@ -322,7 +338,7 @@ def replay(w):
 def describe(tier):
     b = bounds(tier)
     return {
-        'rule': f"every scope kind x pattern kind x disjunction width 1..{b['max_width']} in each event position (complete) x 6 decorations (plain, predicates, alias on every activator alternative referenced later, alias on every alternative of the first pattern event referenced by the second, the two partial-alias forms) x time bound (none, 100 ms) x metadata (none, id+title) x route (parser, API right-nested, API left-nested); canonical_form applied, compared with the activator-major product computed independently from the lifted input, then re-applied to every output; the returned list is then emptied and canonical_form is called again on the same property. A state = one property object or one output; a transition = one canonical_form call.",
+        'rule': f"every scope kind x pattern kind x disjunction width 1..{b['max_width']} in each event position (complete) x 6 decorations (plain, predicates, alias on every activator alternative referenced later, alias on every alternative of the first pattern event referenced by the second, the two partial-alias forms) x time bound (none, 100 ms) x metadata (none, id+title) x route (parser, parser with topic names whose alphabetical order is not the source order, API right-nested, API left-nested); canonical_form applied, compared with the activator-major product computed independently from the lifted input, then re-applied to every output; the returned list is then emptied and canonical_form is called again on the same property. A state = one property object or one output; a transition = one canonical_form call.",
         'bounds': b,
         'exhaustive': True,
         'assumptions': ['lift() reads raw attrs fields; fresh construction through the public constructors defines "valid property"'],
